@@ -10,16 +10,14 @@
    frame -- bindings, values, output are what the previous request left
    (`run_keeps_scope`); a toplevel `let` leaves its binding in the toplevel
    block where every later request finds it (`toplevel_lets_persist`).
-   WHAT IS NOT PROVED: the general statement "for every error-free history the
-   last value of the incremental run equals that of the batch run" (it needs a
-   frame rule for the value stack: a batch run leaves the values of the earlier
-   toplevel expressions below the ones of the later input, and stops at a
-   different expression).  There is NO general `incremental_eq_batch` theorem
-   in this file: `incremental_eq_batch_partial_instance` and
-   `incremental_eq_batch_partial_all_splits` are machine-checked INSTANCES (one
-   history of four inputs with a let, an assignment, calls and expressions, and
-   every way of splitting it into requests); the general case is covered by
-   differential testing in tools/props/C11.py only. *)
+   THE GENERAL STATEMENT "for every error-free history the last value of the
+   incremental run equals that of the batch run" is `incremental_eq_batch_partial`
+   at the end of this file (proofs in RefineSession.v, through the refinement
+   of the reference semantics Ref.v; see the comment there for the fragment
+   and the exact meaning of error-free).  `incremental_eq_batch_partial_instance`
+   and `incremental_eq_batch_partial_all_splits` are machine-checked INSTANCES
+   kept from before (one history of four inputs with a let, an assignment,
+   calls and expressions, and every way of splitting it into requests). *)
 From Coq Require Import ZArith NArith Bool List.
 From Garden Require Import Base.Int64 Arith gen.Tables Machine MachineInv MachineSession Session SessionProps.
 Import ListNotations.
@@ -86,3 +84,62 @@ Example toplevel_let_persists_instance :
   end.
 Proof. vm_compute. split; reflexivity. Qed.
 Print Assumptions toplevel_let_persists_instance.
+
+(* ---- the GENERAL theorem (proofs in RefineSession.v) -------------------------
+   Obtained from the refinement of the reference semantics (C05, RefineProps.v).
+   FRAGMENT: run requests whose inputs are non-empty lists of toplevel
+   expressions in Refine.in_fragment (the whole modelled core language except
+   break / continue outside statement position), annotated as the parser does
+   (Refine.well_annotated_toplevel); definitions (`prog`) static and well
+   formed (prog_good); all_fixes; no tick / stack limits, no interrupts (the
+   fresh session).  ERROR-FREE means: the reference semantics Ref.v evaluates
+   the inputs, one after the other from the state the previous one left, to
+   values (`ref_incremental ... = Some`), and the session answers every request
+   with a value and is left with nothing pending (`session_values ... = Some`:
+   RespValue and `idle`), request by request and for the concatenated input.
+   The session fuels are arbitrary.  NOT covered: histories with definitions
+   between requests, errors, commands other than run, inputs outside the
+   fragment (differential testing in tools/props/C11.py). *)
+From Garden Require Import Ref Refine RefineProps RefineSession.
+
+(* Ref.v threads its state through a concatenation: running the inputs one
+   after the other gives, as last value and final state, what running their
+   concatenation gives. *)
+Theorem ref_incremental_eq_batch_partial : forall p fuel d reqs s l s',
+  ref_incremental p fuel s reqs = Some (l, s') -> reqs <> [] -> Forall (fun r => r <> []) reqs ->
+  run_toplevel p fuel s (concat reqs) = (Ok (last l d), s').
+Proof. exact RefineSession.ref_incremental_eq_batch. Qed.
+Print Assumptions ref_incremental_eq_batch_partial.
+
+(* `session_values` is a run of the session model (Session.run_history) in
+   which every response is a value (and every request leaves the session idle) *)
+Theorem session_values_is_run_history : forall hfuel p reqs s s2 l,
+  session_values hfuel p s reqs = Some (s2, l) ->
+  run_history all_fixes hfuel p s (map RRun reqs) = (s2, map RespValue l).
+Proof. exact RefineSession.session_values_history. Qed.
+Print Assumptions session_values_is_run_history.
+
+(* Incremental = batch: the values the session reports request by request are
+   the reference's; the one request with all the inputs reports the last of
+   them; both runs print the same output. *)
+Theorem incremental_eq_batch_partial : forall p rfuel hfuel hfuel' reqs lref sref s_inc l_inc s_bat l_bat,
+  prog_good p = true -> reqs <> [] -> Forall input_ok reqs ->
+  ref_incremental p rfuel (mkSt [[]] []) reqs = Some (lref, sref) ->
+  session_values hfuel p Session.fresh reqs = Some (s_inc, l_inc) ->
+  session_values hfuel' p Session.fresh [concat reqs] = Some (s_bat, l_bat) ->
+  l_inc = lref /\ l_bat = [last lref vunit] /\ last l_inc vunit = last l_bat vunit /\ out s_inc = out s_bat.
+Proof. exact RefineSession.incremental_eq_batch. Qed.
+Print Assumptions incremental_eq_batch_partial.
+
+(* non-vacuity: the four-input history above satisfies every hypothesis *)
+Example incremental_eq_batch_hypotheses_hold :
+  prog_good ex_prog = true /\ Forall input_ok [in1; in2; in3; in4] /\
+  (exists sref, ref_incremental ex_prog 50 (mkSt [[]] []) [in1; in2; in3; in4] = Some ([vunit; vunit; VInt 2; VInt 14], sref)) /\
+  (exists s1, session_values 300 ex_prog Session.fresh [in1; in2; in3; in4] = Some (s1, [vunit; vunit; VInt 2; VInt 14])) /\
+  (exists s2, session_values 300 ex_prog Session.fresh [concat [in1; in2; in3; in4]] = Some (s2, [VInt 14])).
+Proof.
+  split; [reflexivity|]. split.
+  { repeat constructor; try discriminate. }
+  split; [eexists; vm_compute; reflexivity|]. split; eexists; vm_compute; reflexivity.
+Qed.
+Print Assumptions incremental_eq_batch_hypotheses_hold.
